@@ -187,6 +187,9 @@ def oracle_values(rng, f, n, kind, X, pp, dp):
         return 'dual-form problem over a non-empty X reported infeasible'
     if ps[0] == 'solved' and ds[0] == 'solved' and math.isfinite(ps[1]) and math.isfinite(ds[1]) and ps[1] > ds[1] + 1e-4 * (1 + abs(ds[1])):
         return 'primal value %r exceeds dual value %r' % (ps[1], ds[1])
+    # "they agree when both are finite" (strong duality: observed, not proved; both values come from the same solver)
+    if ps[0] == 'solved' and ds[0] == 'solved' and math.isfinite(ps[1]) and math.isfinite(ds[1]) and abs(ps[1] - ds[1]) > 1e-3 * (1 + abs(ds[1])):
+        return 'primal value %r and dual value %r are both finite and differ' % (ps[1], ds[1])
     return None
 
 
